@@ -1,4 +1,13 @@
-(** Model of the REPAIRED binder, i.e. of conversions.rs / cursor.rs after
+(** STATUS (working tree of /repo as of the last run): fixes/C30-reject-unrepresentable-values.patch and
+    fixes/C30-cache-key-bound-text.patch ARE applied, fixes/C30-literal-aware-substitution.patch is NOT.
+    The code as it is now is therefore [py_to_sqlvalue_r] / [convert_params_r] with the all-'?'
+    [substitute] of Lex/Placeholder.v, i.e. [bind_now] = [bind_parameters_v false true] below, inside the
+    bound-key cursor [execute_now] of Store/Cursor.v.  [py_to_sqlvalue] / [bind_parameters] of
+    Lex/Placeholder.v describe the code BEFORE these two fix commits and are kept as the record the
+    "fixed:" findings refer to; the harness reads from the source which shapes are present and passes the
+    flags to the runner, so the shards always use the model of the code they ran.
+
+    Model of the REPAIRED binder, i.e. of conversions.rs / cursor.rs after
       fixes/C30-literal-aware-substitution.patch   ([count_placeholders], scanner-aware
                                                     [substitute_placeholders], every literal between spaces)
       fixes/C30-reject-unrepresentable-values.patch ([py_to_sqlvalue] refuses ints outside i64 and
@@ -69,6 +78,17 @@ Definition process_v (literal_aware reject : bool) (sql : text) (params : option
   match params with
   | Some ps => bind_parameters_v literal_aware reject sql ps
   | None => Some sql
+  end.
+
+(** the code as it is now: every '?' substituted, unrepresentable values refused *)
+Definition bind_now : text -> list pyval -> option text := bind_parameters_v false true.
+Definition process_now : text -> option (list pyval) -> option text := process_v false true.
+
+(** what [SELECT ?] reads back for a Python value bound by the code as it is now *)
+Definition read_back_now (v : pyval) : option rval :=
+  match py_to_sqlvalue_r v with
+  | Some b => read_literal (print_value b)
+  | None => None
   end.
 
 (** * specification side: the splice with every literal between spaces *)
